@@ -1,6 +1,6 @@
 """C16 — events and async_pass wake every waiter exactly once and rendezvous atomically."""
 import k1
-from units import event
+from units import event, async_pass
 LEVEL = "proof"
 def run(chk, replay=None):
     chk.cov["trusted_base"] = [
@@ -21,6 +21,7 @@ def run(chk, replay=None):
     # event.AutoResetMulti (two concurrent next() on one stream) is NOT run: a stream has one consumer that
     # asks for the next element after the previous next() completed (doc/concepts.md), so the "spurious done"
     # of a second concurrent next() (theorem C16_autoreset_spurious_done_refuted) is outside the property.
+    k1.run_unit(chk, async_pass.AsyncPass())
     k1.run_unit(chk, event.EventV2Logic())
     # keys name the failing call site (event_v2/touched-after-completion/<word>:<op>), not the program
     event.run_lifetime(chk)
